@@ -45,6 +45,33 @@ CHECKS = {
                  "sortable_proxy (permutation + monotone in (lead exponent, lead coefficient)), argmax/argmin/amax/amin "
                  "without axis, isconstant, tonumpy, todict, decompose, set_dimensions(1..5) are run against the model.",
          "note": BASE_NOTE},
+ "C02": {"ref": "5/C02", "technique": "Lean 4 refinement proof (evaluation loop = MvPolynomial.eval; argument binding logic) + model correspondence over all numeric carrier types",
+         "text": "call_eval proves the evaluation loop equals MvPolynomial.eval for every polynomial; call_staged (Mathlib's "
+                 "bind1/eval) gives staged = at-once; call_unknown_keyword/call_double/call_binds cover the TypeError logic. "
+                 "The array-level model (broadcast argument shapes, outer product, collapse to a plain array iff constant, "
+                 "substitution) is run against the implementation, each numeric argument re-sent as every exact Python/numpy "
+                 "carrier type.",
+         "note": BASE_NOTE + " Carrier-type independence is established by the correspondence only (the model has one number type)."},
+ "C03": {"ref": "5/C03", "technique": "Lean 4 proof of the constructor/cleaning spec + representation-level correspondence + invariant checked on every catalogue result",
+         "text": "clean_den, dropZeroCols_rows/_all_zero, dropUnusedNames_names, fromAttributes_rejects_* and regenerate_attrs "
+                 "characterise what polynomial_from_attributes keeps, rejects and denotes for all inputs; attribute triples "
+                 "(redundant, unsorted, malformed) x all retain flags are compared with the Lean constructor at "
+                 "representation level, and every polynomial returned by the ~95-entry operation catalogue is checked for the "
+                 "invariant and rebuilt from attributes / raw view / todict.",
+         "note": BASE_NOTE},
+ "C04": {"ref": "5/C04", "technique": "Lean 4 refinement proof of the three aligners + representation-level correspondence",
+         "text": "alignIndet_den/_names/_WF, commonNamesAll_spec (union, sorted by index), alignExpo_den/_rows/_idem and "
+                 "bcast_denAt (every index map) prove that alignment keeps the denotation and makes names/rows/shape "
+                 "common; tuples of 1-4 polynomial-likes are aligned by the implementation and by the Lean aligners and "
+                 "compared row by row (0 drift), with idempotence and argument snapshots.",
+         "note": BASE_NOTE},
+ "C06": {"ref": "5/C06", "technique": "Lean 4 refinement proof (derivative rows = MvPolynomial.pderiv, incl. uint32 wrap) + model correspondence over option settings",
+         "text": "derivative_rows_den: the rows built by derivative (uint32 decrement that wraps for terms free of the "
+                 "variable, coefficient times old exponent) denote pderiv for every polynomial; wrapped rows carry 0; "
+                 "linearity / product rule / commuting partials follow from Mathlib. derivative (name, position, "
+                 "indeterminate, successive), gradient and hessian are run against the Lean model and exact dictionary "
+                 "arithmetic under 4 (quick) / all 16 (thorough) retain/sort settings.",
+         "note": BASE_NOTE},
 }
 CLAIMED = set(CHECKS)
 NOT_APPLICABLE = {f"C{i:02d}": "check under construction in this session (will be claimed once built)"
